@@ -155,7 +155,7 @@ func cmdDump(args []string) int {
 			if ok && !*all {
 				continue
 			}
-			fmt.Printf("%-8s %-8s %.2fs %s   // %s\n", r.Status, r.Solver, r.Seconds, r.Obl.Name, r.Obl.Src)
+			fmt.Printf("%-8s %-8s %.2fs %s   // %s @%s\n", r.Status, r.Solver, r.Seconds, r.Obl.Name, r.Obl.Src, r.Obl.Pos)
 			if r.Status == "error" {
 				fmt.Println(r.Output)
 			}
